@@ -293,6 +293,15 @@ def process_fn(src, unit, key, spec, s, hp, ob, cb, add_edit, canary, disabled_r
                 raise AnchorLost('%s: loop #%d not found (have %d)' % (key, ordinal, len(found)))
             kwp, lob = found[ordinal]
             add_edit(lob, lob, '\n' + inv.strip() + '\n' + indent + '    ', prio=1)
+        # name the ghost iterator of a `for` loop (`for x in e` -> `for x in iter: e`): Verus-only annotation, erased
+        for ordinal, gname in spec.get('loop_iter', {}).items():
+            if ordinal >= len(found):
+                raise AnchorLost('%s: loop #%d not found (have %d)' % (key, ordinal, len(found)))
+            kwp, lob = found[ordinal]
+            mt = re.search(r'\bin\b\s+', text[kwp:lob])
+            if not text[kwp:].startswith('for') or not mt:
+                raise AnchorLost('%s: loop #%d is not a for loop' % (key, ordinal))
+            add_edit(kwp + mt.end(), kwp + mt.end(), gname + ': ', prio=1)
         if spec.get('loop_count') is not None and spec['loop_count'] != len(found):
             raise AnchorLost('%s: expected %d loops, found %d' % (key, spec['loop_count'], len(found)))
 
